@@ -132,10 +132,15 @@ def _load_mod(prop_id):
     return _MOD
 
 
+_WORKER_HISTORY = []  # indices of the cases this worker process has executed so far, in order
+
+
 def _run_one(args):
     prop_id, idx, kind, params = args
     mod = _load_mod(prop_id)
     t0 = time.time()
+    prior = list(_WORKER_HISTORY)
+    _WORKER_HISTORY.append(idx)
     try:
         r = mod.KINDS[kind](params)
     except Exception as exc:  # harness error, never a verdict
@@ -143,6 +148,8 @@ def _run_one(args):
     for v in r["viol"]:
         if v["case"] is None:
             v["case"] = [kind, _jsonable(params)]
+        v["_prior"] = prior  # the cases that ran before this one in the same process: replayed if the violation needs them
+        v["_top"] = idx
     return idx, r, time.time() - t0
 
 
@@ -293,6 +300,7 @@ def run_property(prop_id, tier, seed, workers=None, replay=None, only=None):
                     cands.append(cv)
             if len(cands) >= 3:
                 break
+        history = None
         if cands and n < 8:  # the verdict is settled by the first confirmed keys; further keys are filed as found
             confirmed, last = None, None
             for cv in cands:
@@ -301,6 +309,41 @@ def run_property(prop_id, tier, seed, workers=None, replay=None, only=None):
                     confirmed = cv
                     break
                 last = again
+            if confirmed is None:
+                # not reproducible from a fresh process: replay what the finding worker had executed before it (the state is the
+                # history reaching it), then shrink that history while the violation still shows
+                cv = cands[0]
+                prior = [list(case_list[i]) for i in cv.get("_prior", [])]
+                top = cv.get("_top")
+                if top is not None and json.dumps(_jsonable(list(case_list[top])), sort_keys=True) != json.dumps(_jsonable(cv["case"]), sort_keys=True):
+                    # the recorded case is a narrowed one: the enclosing case (which ran other sub-cases first) belongs to the history
+                    again = _rerun_keys(mod, list(case_list[top]), prop_id)
+                    if again is not None and key in again:
+                        cv["case"] = [case_list[top][0], _jsonable(case_list[top][1])]
+                        confirmed = cv
+                        prior = []
+                    else:
+                        prior = prior + [list(case_list[top])]
+                if prior and confirmed is None:
+                    again = _rerun_keys(mod, cv["case"], prop_id, history=prior)
+                    if again is not None and key in again:
+                        chunk = max(1, len(prior) // 2)
+                        budget = 10
+                        while chunk >= 1 and budget > 0 and len(prior) > 1:
+                            i, shrunk = 0, False
+                            while i < len(prior) and budget > 0 and len(prior) > 1:
+                                trial = prior[:i] + prior[i + chunk:]
+                                budget -= 1
+                                ag = _rerun_keys(mod, cv["case"], prop_id, history=trial) if trial else None
+                                if ag is not None and key in ag:
+                                    prior, shrunk = trial, True
+                                else:
+                                    i += chunk
+                            if chunk == 1:
+                                break
+                            chunk = max(1, chunk // 2)
+                        confirmed, history = cv, prior
+                        cv["what"] = "[only after %d earlier case(s) in the same process, listed in the replay file: the result depends on what ran before] %s" % (len(prior), cv["what"])
             if confirmed is not None:
                 v = confirmed
             else:
@@ -314,7 +357,7 @@ def run_property(prop_id, tier, seed, workers=None, replay=None, only=None):
                     return 2
         path = os.path.join(REPLAY_DIR, prop_id, "%03d.json" % n)
         with open(path, "w") as fh:
-            json.dump({"property": prop_id, "key": key, "what": v["what"], "case": v["case"],
+            json.dump({"property": prop_id, "key": key, "what": v["what"], "case": v["case"], "history": history,
                        "observed": v["observed"], "expected": v["expected"],
                        "occurrences": len(by_key[key])}, fh, indent=1)
         if reported < 25:
@@ -352,18 +395,20 @@ def run_property(prop_id, tier, seed, workers=None, replay=None, only=None):
 
 
 def _rerun_child(args):
-    prop_id, case = args
+    prop_id, case, history = args
     mod = _load_mod(prop_id)
-    kind, params = case
     try:
+        for hk, hp in history or ():
+            mod.KINDS[hk](hp)
+        kind, params = case
         r = mod.KINDS[kind](params)
     except Exception:
         return {"error": traceback.format_exc()}
     return {"keys": sorted({v["key"] for v in r["viol"]})}
 
 
-def _rerun_keys(mod, case, prop_id=None):
-    """re-execute one case in a freshly forked process: its only history is the case itself"""
+def _rerun_keys(mod, case, prop_id=None, history=None):
+    """re-execute one case in a freshly forked process: its only history is `history` (a list of cases run first) and the case itself"""
     import multiprocessing as mp
 
     prop_id = prop_id or mod.ID
@@ -371,7 +416,7 @@ def _rerun_keys(mod, case, prop_id=None):
     nthreads = max(1, (os.cpu_count() or 16) // 4)
     pool = ctx.Pool(1, initializer=_worker_init, initargs=(prop_id, nthreads), maxtasksperchild=1)
     try:
-        out = pool.apply(_rerun_child, ((prop_id, _jsonable(case)),))
+        out = pool.apply(_rerun_child, ((prop_id, _jsonable(case), _jsonable(history)),))
     finally:
         pool.close()
         pool.join()
@@ -386,8 +431,11 @@ def _replay(mod, path):
         rep = json.load(fh)
     kind, params = rep["case"]
     print("replaying %s case kind=%s params=%s" % (mod.ID, kind, json.dumps(params)[:500]))
-    keys1 = _rerun_keys(mod, (kind, params))
-    keys2 = _rerun_keys(mod, (kind, params))
+    hist = rep.get("history")
+    if hist:
+        print("  after %d earlier case(s) in the same process" % len(hist))
+    keys1 = _rerun_keys(mod, (kind, params), history=hist)
+    keys2 = _rerun_keys(mod, (kind, params), history=hist)
     if keys1 is None or keys2 is None:
         print("HARNESS-ERROR: replay crashed")
         return 2
@@ -396,6 +444,8 @@ def _replay(mod, path):
         return 2
     if hasattr(mod, "worker_init"):  # only now: the two re-executions above were forked from a process that had run nothing
         mod.worker_init()
+    for hk, hp in hist or ():
+        mod.KINDS[hk](hp)
     r = mod.KINDS[kind](params)
     for v in r["viol"]:
         print("  key=%s :: %s" % (v["key"], v["what"]))
